@@ -155,6 +155,12 @@ fn corruptions(kind: &str, cur: &Value) -> Vec<(String, Value)> {
                 // the prefix written twice or three times (a script prepending "ibc/" to a full denom), a suffix,
                 // another separator, an inner slash: every well-spelt part is there, the whole is not a voucher denom
                 ("prefix_twice", format!("ibc/ibc/{h}")),
+                // other voucher / bridge namespaces followed by a well-formed hash
+                ("l2_prefix", format!("l2/{h}")),
+                ("transfer_prefix", format!("transfer/{h}")),
+                ("ibc2_prefix", format!("ibc2/{h}")),
+                ("cw20_prefix", format!("cw20:{h}")),
+                ("gamm_prefix", format!("gamm/pool/{}", &h[..55])),
                 ("prefix_thrice", format!("ibc/ibc/ibc/{h}")),
                 ("prefix_then_trace", format!("ibc/transfer/channel-0/{h}")),
                 ("suffix_slash", format!("ibc/{h}/")),
@@ -443,9 +449,19 @@ fn update_grid(r: &mut Runner, thorough: bool) {
         if k.name != "K0" && !thorough {
             continue;
         }
-        let w0 = World::new(&k).expect("instantiate");
-        let before = w0.config();
-        let before_json = section_json(&before);
+        let w_plain = World::new(&k).expect("instantiate");
+        // a second base: the protocol section alone was replaced by one with another account prefix (sections
+        // are validated on their own), so that stored treasury / oracle addresses no longer match it
+        let mut w_moved = w_plain.clone();
+        {
+            let mut pc = base["protocol_chain_config"].clone();
+            pc["account_address_prefix"] = json!("init");
+            pc["oracle_address"] = Value::Null;
+            if let Ok(msg) = serde_json::from_value::<ExecuteMsg>(json!({"update_config": {"protocol_chain_config": pc}})) {
+                let _ = w_moved.exec(&p20("adm"), msg, &[]);
+            }
+        }
+        let worlds = vec![("plain", w_plain.clone()), ("protocol_prefix_moved", w_moved)];
         // the update message is built from a (possibly different) valid configuration so that a
         // successful update really changes the supplied sections
         let mut src = base.clone();
@@ -457,6 +473,10 @@ fn update_grid(r: &mut Runner, thorough: bool) {
         src["monitors"] = json!([p20("mon2"), p20("mon3")]);
         let fs = fields(true);
         let muts = mutations(&src, &fs, false);
+        for (bname, w0) in worlds.iter() {
+        let w0 = w0.clone();
+        let before = w0.config();
+        let before_json = section_json(&before);
         for subset in 0u32..32 {
             let supplied: Vec<&'static str> = secs.iter().enumerate().filter(|(i, _)| subset & (1 << i) != 0).map(|(_, s)| *s).collect();
             let relevant: Vec<&Mutation> = muts.iter().filter(|m| m.sections.iter().all(|s| supplied.contains(s))).collect();
@@ -475,7 +495,7 @@ fn update_grid(r: &mut Runner, thorough: bool) {
                     let Ok(msg) = serde_json::from_value::<ExecuteMsg>(msgv.clone()) else { return (false, None) };
                     let mut w = w0.clone();
                     let out = w.exec(&p20("adm"), msg, &[]);
-                    let case = json!({"config": k.name, "sections": supplied, "mutation": m.desc, "message": msgv});
+                    let case = json!({"config": k.name, "base": bname, "sections": supplied, "mutation": m.desc, "message": msgv});
                     if let Some(p) = &out.panicked {
                         return (false, Some((viol("C14", "update.panic", format!("{}: {p}", m.desc)), case)));
                     }
@@ -551,7 +571,10 @@ fn update_grid(r: &mut Runner, thorough: bool) {
         let out = w.exec(&p20("adm"), msg, &[]);
         n += 1;
         if !out.ok || w.config().stopped {
-            viols.push((viol("C14", "update.running_flag", format!("full update on a running contract: ok={} stopped={}", out.ok, w.config().stopped)), json!({"config": k.name})));
+            if *bname == "plain" {
+                viols.push((viol("C14", "update.running_flag", format!("full update on a running contract: ok={} stopped={}", out.ok, w.config().stopped)), json!({"config": k.name})));
+            }
+        }
         }
     }
     r.grid("c14-update-config-32-section-subsets-x-corruptions", n, 2, acc, n - acc, samples, viols);
@@ -643,4 +666,42 @@ pub fn run(thorough: bool) -> i32 {
     update_grid(&mut r, thorough);
     validator_grid(&mut r);
     r.finish()
+}
+
+/// Accept / reject decisions of instantiation over every single and paired corruption of the base
+/// configurations, as one digest: the two cargo-feature builds must agree on it (C19).
+pub fn accept_reject_digest() -> Value {
+    use sha2::{Digest, Sha256};
+    let mut h = Sha256::new();
+    let mut n = 0u64;
+    let mut acc = 0u64;
+    let mut accepted: Vec<String> = vec![];
+    for (k, base) in base_configs() {
+        let fs = fields(true);
+        let muts = mutations(&base, &fs, true);
+        let res: Vec<(String, bool)> = muts
+            .par_iter()
+            .map(|m| {
+                let v = apply_edits(&base, &m.edits);
+                let ok = match serde_json::from_value::<InstantiateMsg>(v) {
+                    Ok(msg) => World::new_with(&k, msg).is_ok(),
+                    Err(_) => false,
+                };
+                (format!("{}|{}", k.name, m.desc), ok)
+            })
+            .collect();
+        for (d, ok) in res {
+            n += 1;
+            h.update(d.as_bytes());
+            h.update([ok as u8]);
+            if ok {
+                acc += 1;
+                if accepted.len() < 400 {
+                    accepted.push(d);
+                }
+            }
+        }
+    }
+    let digest: String = h.finalize().iter().map(|b| format!("{:02x}", b)).collect();
+    json!({"scenario": "config-validation-accept-reject", "cases": n, "accepted": acc, "capped": false, "digest": digest, "accepted_cases": accepted})
 }
